@@ -340,3 +340,46 @@ Example ex_c04_wiski_post_hypotheses :
   /\ is_inverse 2 (madd (ski 2 (vstack 1 wpW wpWf) wpKuu (vstack 1 wpW wpWf)) (blkdiag 1 wpD wpDf)) wpAinv
   /\ symmetric 2 wpKuu.
 Proof. exact ex_wiski_post_hyps. Qed.
+
+(* ---- the EXECUTED fantasy update is the REAL-NUMBER fantasy update (Base/Morph.v, Proofs/C04_morph.v) ----
+   After the source solve and ANY number of fantasy updates of ANY sizes, executed on exact rationals with the
+   certificate-checked oracle (what run_fantasy runs and the driver compares with the implementation), the carried
+   state (A^-1, mean cache), read as reals through the field morphism Q2R', is the state of the real-number problem:
+   mapR Ainv inverts the real train covariance of all N rows, mapR alpha is the real mean cache, and the predictions
+   the wrapper prints from that state are the real-number C01 posterior of the real-number concatenated data, for ANY
+   real inverse AinvR (test blocks from any joint prior KJt / muJt with the same train mean rows).  All n0, ms, t. *)
+From GPV Require Import Base.Morph Proofs.C01_morph Proofs.C04_morph.
+
+Theorem c04_executed_fantasy_is_real_fantasy :
+  forall (KJ S muJ y : @M QcF) n0 ms t st0 N Ainv alpha,
+    fantasy_init inv_oracle KJ S (@resid QcF muJ y) n0 = Some st0 ->
+    fantasy_fold inv_oracle KJ S (@resid QcF muJ y) st0 ms = Some (N, Ainv, alpha) ->
+    N = (n0 + list_sum ms)%nat /\
+    is_inverse N (@train_covar RF (mapR KJ) (mapR S)) (mapR Ainv) /\
+    forall (AinvR : @M RF), is_inverse N (@train_covar RF (mapR KJ) (mapR S)) AinvR ->
+      meq N 1 (mapR alpha) (@mean_cache RF N (mapR muJ) AinvR (mapR y)) /\
+      meq N N (mapR Ainv) AinvR /\
+      forall (KJt muJt : @M QcF), meq N 1 muJt muJ ->
+        meq t 1 (mapR (@post_mean_from_cache QcF N KJt muJt alpha))
+                (@post_mean RF N (mapR KJt) (mapR muJt) AinvR (mapR y)) /\
+        meq t t (mapR (@post_cov_staged QcF N t KJt Ainv)) (@post_cov RF N (mapR KJt) AinvR).
+Proof. exact executed_fantasy_is_real_fantasy. Qed.
+Print Assumptions c04_executed_fantasy_is_real_fantasy.
+
+(* the one-update formulas commute entrywise with ANY field morphism (generic, no axioms) *)
+Theorem c04_fantasy_update_commutes_with_field_morphisms :
+  forall (K1 K2 : Fld) (phi : @car K1 -> @car K2), FldMorph K1 K2 phi ->
+    forall n m (Ainv U Ut Sf Q Cinv alpha rf : @M K1) i j,
+      phi (@schur K1 n U Q Sf i j) = @schur K2 n (mmap phi U) (mmap phi Q) (mmap phi Sf) i j /\
+      phi (@fant_mean_cache K1 n m U Q Cinv alpha rf i j)
+        = @fant_mean_cache K2 n m (mmap phi U) (mmap phi Q) (mmap phi Cinv) (mmap phi alpha) (mmap phi rf) i j /\
+      phi (@bordered_inv K1 n m Ainv U Ut Cinv i j)
+        = @bordered_inv K2 n m (mmap phi Ainv) (mmap phi U) (mmap phi Ut) (mmap phi Cinv) i j.
+Proof. exact fantasy_update_commutes_with_field_morphisms. Qed.
+Print Assumptions c04_fantasy_update_commutes_with_field_morphisms.
+
+Example ex_c04_executed_fantasy_hypotheses :
+  exists st0 st, fantasy_init inv_oracle exf_KJ exf_S (@resid QcF exf_mu exf_y) 1 = Some st0 /\
+    fantasy_fold inv_oracle exf_KJ exf_S (@resid QcF exf_mu exf_y) st0 [1%nat] = Some st /\ fst (fst st) = 2%nat.
+Proof. exact ex_executed_fantasy_hyp. Qed.
+Print Assumptions ex_c04_executed_fantasy_hypotheses.
